@@ -24,6 +24,7 @@ import (
 type NodeSpec struct {
 	HasNodeClient bool         `json:"has_node_client"`
 	NodeClientErr bool         `json:"node_client_err,omitempty"`
+	ErrKind       string       `json:"err_kind,omitempty"` // kind of the node client failure
 	ClientName    string       `json:"client_name"`
 	Proposal      ProposalSpec `json:"proposal"`
 }
@@ -66,7 +67,7 @@ type nodeDoubleWithClient struct{ nodeDouble }
 
 func (n *nodeDoubleWithClient) NodeClient(context.Context) (*api.Response[string], error) {
 	if n.spec.NodeClientErr {
-		return nil, errors.New("scripted node client failure")
+		return nil, clientError(n.spec.ErrKind, "v1/node/version")
 	}
 	return &api.Response[string]{Data: n.spec.ClientName, Metadata: map[string]any{}}, nil
 }
@@ -234,6 +235,7 @@ func genNodeSpec(t *rapid.T, slot uint64, randao byte) NodeSpec {
 	return NodeSpec{
 		HasNodeClient: rapid.IntRange(0, 4).Draw(t, "hasNodeClient") > 0,
 		NodeClientErr: rapid.IntRange(0, 7).Draw(t, "nodeClientErr") == 0,
+		ErrKind:       genErrKind(t, "nodeClientErrKind"),
 		ClientName:    rapid.SampledFrom(clientNames).Draw(t, "clientName"),
 		Proposal:      genProposalSpec(t, slot, randao),
 	}
